@@ -14,6 +14,7 @@ that is not the one that was sent (changed value or type).
 """
 from __future__ import annotations
 
+import datetime as _dt
 import logging
 import math
 import struct
@@ -29,7 +30,7 @@ from taskiq.abc.broker import AsyncBroker  # noqa: E402
 from taskiq.abc.middleware import TaskiqMiddleware  # noqa: E402
 from taskiq.abc.result_backend import AsyncResultBackend  # noqa: E402
 from taskiq.acks import AckableMessage  # noqa: E402
-from taskiq.exceptions import NoResultError, SendTaskError  # noqa: E402
+from taskiq.exceptions import BrokerError, NoResultError, SendTaskError  # noqa: E402
 from taskiq.middlewares.retry_middleware import SimpleRetryMiddleware  # noqa: E402
 from taskiq.receiver import Receiver  # noqa: E402
 from taskiq.serializers.json_serializer import JSONSerializer  # noqa: E402
@@ -56,6 +57,7 @@ for _i in range(8):            # ints 0..7 -> vids 20..27?  keep 20..26 for ints
 for _i in range(1, 6):         # requeue counters "1".."5" -> 31..35
     VALUES[30 + _i] = (str(_i), "str", "intlike")
 
+WHEN_TEXT = "2031-05-06T07:08:09"
 NAMES = ["a", "b", "_c", "_retries", "max_retries", "retry_on_error", "X-Taskiq-requeue", "timeout"]
 
 
@@ -121,6 +123,10 @@ def tid_code(tid: str) -> int:
     return -1
 
 
+class BrokerDownError(BrokerError):
+    __template__ = "broker is down"
+
+
 class RecBroker(AsyncBroker):
     def __init__(self, env: Env, idx: int) -> None:
         super().__init__()
@@ -145,6 +151,8 @@ class RecBroker(AsyncBroker):
         env.kick_fail = False
         env.rec("kick", j=j, tid=tid_code(message.task_id), br=self.idx, lab=lab, ok=not fail, s=dec, g=gen)
         if fail:
+            if j % 2 == 0:
+                raise BrokerDownError()              # a broker's own error type, from taskiq's exception family
             raise ConnectionError("broker down")
         env.sent[j] = message
 
@@ -285,8 +293,11 @@ def run(scn: Dict[str, Any]) -> List[Dict[str, Any]]:
             b1.add_middlewares(retry_mw)
         decl = {d["n"]: VALUES[d["v"]][0] for d in cfg["decl"]}
 
-        async def t(x: int, y: str = "k", ctx: Context = TaskiqDepends()) -> Any:
-            env.rec("exec", j=env.cur_j, tid=tid_code(ctx.message.task_id), x=x, s=y)
+        async def t(x: int, y: str = "k", when: Optional[_dt.datetime] = None, ctx: Context = TaskiqDepends()) -> Any:
+            # `when` travels as ISO text and is parsed into a datetime by the worker (kept as text with parsing disabled);
+            # a retry / requeue has to put it on the wire again
+            when_ok = (isinstance(when, str) and when == WHEN_TEXT) if cfg.get("noparse") else (when == _dt.datetime.fromisoformat(WHEN_TEXT))
+            env.rec("exec", j=env.cur_j, tid=tid_code(ctx.message.task_id), x=x, s=y if when_ok else y + "!when")
             env.rec("seen", pt="ctx", j=env.cur_j, tid=tid_code(ctx.message.task_id),
                     lab=lab_view({k: v for k, v in ctx.message.labels.items() if k != "_gen"}))
             mode = env.mode
@@ -321,9 +332,9 @@ def run(scn: Dict[str, Any]) -> List[Dict[str, Any]]:
         async def do_kiq(kicker_or_task: Any, bad: bool = False) -> None:
             try:
                 if bad:
-                    await kicker_or_task.kiq(lambda: 5, y="z")       # an argument no bundled serializer can encode
+                    await kicker_or_task.kiq(lambda: 5, y="z", when=WHEN_TEXT)       # an argument no bundled serializer can encode
                 else:
-                    await kicker_or_task.kiq(5, y="z")
+                    await kicker_or_task.kiq(5, y="z", when=WHEN_TEXT)
                 env.rec("kiqret", s="ok")
             except SendTaskError:
                 env.rec("kiqret", s="SendTaskError")
